@@ -101,7 +101,7 @@ Notation K := (kops_of F Single).
 Lemma cutprop_of_run (a : Linkage.algo) s d (m : list T) n s' d' m' M0 :
   Linkage.run_with F p a Single s d m n = Ok (s', d', m') ->
   prologue p m n = Ok M0 -> 1 <= m_obs M0 ->
-  Forall (fun v => f_ltb F v (f_max F) = true) m ->
+  Forall (fun v => f_ltb F v (f_inf F) = true) m ->
   Forall (fun v => f_ltb F v (f_inf F) = true) m ->
   cutprop K d' M0.
 Proof.
@@ -137,8 +137,8 @@ Theorem single_perm_invariant (a a' : Linkage.algo) (pi : nat -> nat)
   Linkage.run_with F p a Single s1 d1 m n = Ok (sr, dr, mr) ->
   Linkage.run_with F p a' Single s2 d2 m' n = Ok (sr', dr', mr') ->
   prologue p m n = Ok M0 -> prologue p m' n = Ok M0' -> m_obs M0' = m_obs M0 -> 1 <= m_obs M0 ->
-  Forall (fun v => f_ltb F v (f_max F) = true) m -> Forall (fun v => f_ltb F v (f_inf F) = true) m ->
-  Forall (fun v => f_ltb F v (f_max F) = true) m' -> Forall (fun v => f_ltb F v (f_inf F) = true) m' ->
+  Forall (fun v => f_ltb F v (f_inf F) = true) m -> Forall (fun v => f_ltb F v (f_inf F) = true) m ->
+  Forall (fun v => f_ltb F v (f_inf F) = true) m' -> Forall (fun v => f_ltb F v (f_inf F) = true) m' ->
   (forall x, x < m_obs M0 -> pi x < m_obs M0) ->
   (forall x y, x < m_obs M0 -> y < m_obs M0 -> pi x = pi y -> x = y) ->
   (forall y, y < m_obs M0 -> exists x, x < m_obs M0 /\ pi x = y) ->
